@@ -419,14 +419,10 @@ def eval_case(case, n_tables: int, seed: int) -> List[Dict[str, Any]]:
 
 
 def _shape_trigger(shape: str) -> Optional[Tuple[str, str]]:
-    """(site, trigger) for the confirmed defects of the pinned tree, None otherwise"""
-    # x ** y with a unary-minus expression as BASE prints as  -(x) ** y  (no parentheses around the base)
-    if shape.startswith("**:inline(expr[-:inline],"):
-        return ("expr_rep.Expression.to_python", "unary-minus-base-of-power")
-    # negative constant as base of **: prints  -3 ** 2
-    if shape.startswith("**:inline(negconst,"):
-        return ("expr_rep.Expression.to_python", "negative-constant-base-of-power")
-    return None
+    """(site, trigger) for the confirmed printing defects of the pinned tree, None otherwise:
+    x ** y with a unary-minus expression as BASE prints as  -(x) ** y ; a negative constant as base of
+    ** prints as  -3 ** 2  (shared with C13: cbc.oracles_c.print_shape_trigger)"""
+    return O.print_shape_trigger(shape)
 
 
 def _terms_of(ops) -> List[Tuple[Any, List[str]]]:
